@@ -5,6 +5,7 @@ import BMV.Basm
 import BMV.Proofs.Topology
 import BMV.Proofs.Encode
 import BMV.Props.C03
+import BMV.BasmSem
 namespace BMV.Basm
 open BMV BMV.Bits BMV.Topology
 
@@ -580,5 +581,175 @@ theorem neededBits_pow2_succ {k : Nat} (h1 : 1 ≤ k) (h2 : k < 63) : neededBits
     have : 1 ≤ 2 ^ k := Nat.one_le_two_pow
     omega
   · omega
+
+
+/-! ### labels, positions, addresses -/
+
+/-- index of a kept line inside the filtered list -/
+theorem filter_getElem?_addr : ∀ (ls : List Line) (p : Nat) (l : Line), ls[p]? = some l → isEntry l = false →
+    (ls.filter fun l => !isEntry l)[addr ls p]? = some l
+  | [], p, l, h, _ => by simp at h
+  | x :: xs, 0, l, h, hne => by
+    simp at h; subst h
+    simp [addr, hne]
+  | x :: xs, p + 1, l, h, hne => by
+    have ih := filter_getElem?_addr xs p l (by simpa using h) hne
+    by_cases hx : isEntry x = true
+    · simp only [addr, List.take_succ_cons, List.filter_cons, hx, Bool.not_true, Bool.false_eq_true, if_false] at ih ⊢
+      exact ih
+    · have hx' : isEntry x = false := by simpa using hx
+      simp only [addr, List.take_succ_cons, List.filter_cons, hx', Bool.not_false, if_true, List.length_cons,
+        List.getElem?_cons_succ] at ih ⊢
+      exact ih
+
+theorem matchLines_get {mode : Option IoMode} : ∀ {ls : List Line} {rs : List RLine},
+    matchLines mode ls = .ok rs → ∀ (i : Nat) (l : Line), ls[i]? = some l →
+      ∃ r : RLine, rs[i]? = some r ∧ r.labels = l.labels ∧ matchLine mode l = some (r.op, r.args)
+  | [], rs, h, i, l, hl => by simp at hl
+  | x :: xs, rs, h, i, l, hl => by
+    simp only [matchLines] at h
+    cases h1 : matchLine mode x with
+    | none => simp [h1] at h
+    | some p =>
+      obtain ⟨op, args⟩ := p
+      cases h2 : matchLines mode xs with
+      | error e => simp [h1, h2] at h
+      | ok rs' =>
+        simp [h1, h2] at h; subst h
+        cases i with
+        | zero => simp at hl; subst hl; exact ⟨_, rfl, rfl, h1⟩
+        | succ i => simpa using matchLines_get h2 i l (by simpa using hl)
+
+
+theorem hasDup_false_iff (l : List String) : hasDup l = false ↔ l.Nodup := by
+  induction l with
+  | nil => simp [hasDup]
+  | cons x xs ih =>
+    simp only [hasDup, Bool.or_eq_false_iff, List.nodup_cons, ih]
+    constructor
+    · rintro ⟨h1, h2⟩; exact ⟨by simpa using h1, h2⟩
+    · rintro ⟨h1, h2⟩; exact ⟨by simpa using h1, h2⟩
+
+/-- with duplicate-free labels, a label sits on one line only -/
+theorem label_unique {rs : List RLine} (hnd : (rs.flatMap (·.labels)).Nodup) {i j : Nat} {ri rj : RLine} {s : String}
+    (hi : rs[i]? = some ri) (hj : rs[j]? = some rj) (hsi : s ∈ ri.labels) (hsj : s ∈ rj.labels) : i = j := by
+  unfold List.Nodup at hnd
+  rw [List.pairwise_flatMap] at hnd
+  have hp := List.pairwise_iff_getElem.mp hnd.2
+  obtain ⟨hil, hie⟩ := List.getElem?_eq_some_iff.mp hi
+  obtain ⟨hjl, hje⟩ := List.getElem?_eq_some_iff.mp hj
+  rcases Nat.lt_trichotomy i j with h | h | h
+  · exact absurd rfl (hp i j hil hjl h s (by rw [hie]; exact hsi) s (by rw [hje]; exact hsj))
+  · exact h
+  · exact absurd rfl (hp j i hjl hil h s (by rw [hje]; exact hsj) s (by rw [hie]; exact hsi))
+
+theorem mem_labelTable {rs : List RLine} {s : String} {i : Nat} :
+    (s, i) ∈ labelTable rs ↔ ∃ r, rs[i]? = some r ∧ s ∈ r.labels := by
+  unfold labelTable
+  simp only [List.mem_flatMap, List.mem_map, Prod.mk.injEq]
+  constructor
+  · rintro ⟨⟨r, k⟩, hk, s', hs', rfl, rfl⟩
+    exact ⟨r, List.mk_mem_zipIdx_iff_getElem?.mp hk, hs'⟩
+  · rintro ⟨r, hr, hs⟩
+    exact ⟨(r, i), List.mk_mem_zipIdx_iff_getElem?.mpr hr, s, hs, rfl, rfl⟩
+
+/-- `symbolTagger`/`symbolResolver`: a label resolves to the index of the line it is attached to -/
+theorem lookup_labelTable {rs : List RLine} (hnd : (rs.flatMap (·.labels)).Nodup) {i : Nat} {r : RLine} {s : String}
+    (hr : rs[i]? = some r) (hs : s ∈ r.labels) : lookup (labelTable rs) s = some i := by
+  unfold lookup
+  have hmem : (s, i) ∈ labelTable rs := mem_labelTable.mpr ⟨r, hr, hs⟩
+  cases hf : (labelTable rs).find? (·.1 == s) with
+  | none =>
+    have := List.find?_eq_none.mp hf (s, i) hmem
+    simp at this
+  | some p =>
+    have h1 := List.find?_some hf
+    have h2 := List.mem_of_find?_eq_some hf
+    have hp1 : p.1 = s := by simpa using h1
+    obtain ⟨r', hr', hs'⟩ := mem_labelTable.mp (show (s, p.2) ∈ labelTable rs by rw [← hp1]; exact h2)
+    simp only [Option.map_some, Option.some.injEq]
+    exact label_unique hnd hr' hr hs' hs
+
+theorem lookup_lt {rs : List RLine} {s : String} {i : Nat} (h : lookup (labelTable rs) s = some i) : i < rs.length := by
+  unfold lookup at h
+  cases hf : (labelTable rs).find? (·.1 == s) with
+  | none => simp [hf] at h
+  | some p =>
+    simp [hf] at h
+    have h2 := List.mem_of_find?_eq_some hf
+    obtain ⟨r', hr', _⟩ := mem_labelTable.mp (show (p.1, p.2) ∈ labelTable rs from h2)
+    rw [← h]
+    exact (List.getElem?_eq_some_iff.mp hr').1
+
+
+theorem filter_flatMap_sublist {α β} (p : α → Bool) (f : α → List β) : ∀ (l : List α),
+    ((l.filter p).flatMap f).Sublist (l.flatMap f)
+  | [] => by simp
+  | x :: xs => by
+    by_cases hp : p x = true
+    · simp only [List.filter_cons, hp, if_true, List.flatMap_cons]
+      exact List.Sublist.append (List.Sublist.refl _) (filter_flatMap_sublist p f xs)
+    · simp only [List.filter_cons, hp, List.flatMap_cons]
+      exact List.Sublist.trans (filter_flatMap_sublist p f xs) (List.sublist_append_right _ _)
+
+theorem matchLines_labels {mode : Option IoMode} : ∀ {ls : List Line} {rs : List RLine},
+    matchLines mode ls = .ok rs → rs.flatMap (·.labels) = ls.flatMap (·.labels)
+  | [], rs, h => by simp [matchLines] at h; subst h; rfl
+  | x :: xs, rs, h => by
+    simp only [matchLines] at h
+    cases h1 : matchLine mode x with
+    | none => simp [h1] at h
+    | some p =>
+      obtain ⟨op, args⟩ := p
+      cases h2 : matchLines mode xs with
+      | error e => simp [h1, h2] at h
+      | ok rs' =>
+        simp [h1, h2] at h; subst h
+        simp [matchLines_labels h2]
+
+theorem removeEntry_eq {ls ls' : List Line} (h : removeEntry ls = .ok ls') : ls' = ls.filter fun l => !isEntry l := by
+  unfold removeEntry at h
+  split at h <;> try cases h
+  split at h <;> try cases h
+  split at h <;> cases h
+  rfl
+
+/-- label table after the entry-line removal (unchanged tree): a label attached to an instruction
+    line at source position `p` resolves to the ROM address of that instruction, i.e. the number
+    of instructions before it — the directive no longer counts — and the line at that address is
+    the matched form of that very source line. -/
+theorem label_after_entry_removal_aux {ls ls' : List Line} {mode : Option IoMode} {rs : List RLine}
+    (h1 : removeEntry ls = .ok ls') (h2 : matchLines mode ls' = .ok rs) (hnd : hasDup (allLabels ls) = false)
+    {p : Nat} {l : Line} (hl : ls[p]? = some l) (hne : isEntry l = false) :
+    (∃ r : RLine, rs[addr ls p]? = some r ∧ r.labels = l.labels ∧ matchLine mode l = some (r.op, r.args)) ∧
+    ∀ s ∈ l.labels, lookup (labelTable rs) s = some (addr ls p) := by
+  have he := removeEntry_eq h1
+  subst he
+  have hget := filter_getElem?_addr ls p l hl hne
+  obtain ⟨r, hr, hrl, hm⟩ := matchLines_get h2 _ l hget
+  refine ⟨⟨r, hr, hrl, hm⟩, ?_⟩
+  intro s hs
+  have hnd' : (rs.flatMap (·.labels)).Nodup := by
+    rw [matchLines_labels h2]
+    exact List.Nodup.sublist (filter_flatMap_sublist _ _ ls) ((hasDup_false_iff _).mp hnd)
+  exact lookup_labelTable hnd' hr (by rw [hrl]; exact hs)
+
+/-- the opcode field of the k-th ROM word is the position of that line's opcode in the sorted set
+    of opcodes used by the whole section -/
+theorem opcode_index_aux {rsize : Nat} {rs : List RLine} {cp : CP} (h : mkCP rsize rs = .ok cp)
+    {k : Nat} {r : RLine} {w : Bits} (hr : rs[k]? = some r) (hw : cp.prog[k]? = some w) :
+    cp.arch.ops = opsOf rs ∧ (opsOf rs)[getId (w.take cp.arch.opBits)]? = some r.op := by
+  unfold mkCP at h
+  cases hws : asmAll (mkArch rsize rs) (resolve rs) with
+  | error e => simp [hws] at h
+  | ok ws =>
+    simp only [hws] at h
+    cases h
+    refine ⟨rfl, ?_⟩
+    have hi : (resolve rs)[k]? = some ⟨r.op, r.args.map (resolveArg (labelTable rs))⟩ := by
+      simp [resolve, hr]
+    have hasm := (asmAll_ok hws).get k _ w hi hw
+    obtain ⟨idx, hidx, hid, _⟩ := BMV.Props.C03.opcode_numbering _ _ w hasm
+    rw [hid]; exact hidx
 
 end BMV.Basm
